@@ -6,11 +6,12 @@ NZ = "menelaus.injection.noise:"
 TARGETS = [("fn", "menelaus.detector:StreamingDetector._validate_X"), ("fn", "menelaus.detector:BatchDetector._validate_X"),
            ("fn", FM + "FeatureShiftInjector.__call__"), ("fn", FM + "FeatureSwapInjector.__call__"),
            ("fn", LM + "LabelSwapInjector.__call__"), ("fn", LM + "LabelJoinInjector.__call__"),
-           ("fn", NZ + "BrownianNoiseInjector.__call__")]
+           ("fn", NZ + "BrownianNoiseInjector.__call__"), ("fn", LM + "LabelProbabilityInjector.__call__"),
+           ("fn", LM + "LabelDirichletInjector.__call__")]
 LEVEL = "exploration"
 LEVEL_TEXT = ("Deductive part: the ownership clause fresh(result) of both _validate_X functions (every detector stores only "
-              "what validation hands out) is proved on every run under the aliasing model of numpy/pandas; for five injectors "
-              "(FeatureShift, FeatureSwap, LabelSwap, LabelJoin, BrownianNoise) the clause 'every input cell and the input shape are unchanged and the result does not share storage with the input' is proved over content-level arrays. The rest of "
+              "what validation hands out) is proved on every run under the aliasing model of numpy/pandas; for seven injectors "
+              "(FeatureShift, FeatureSwap, LabelSwap, LabelJoin, BrownianNoise, LabelProbability, LabelDirichlet) the clause 'every input cell and the input shape are unchanged and the result does not share storage with the input' is proved over content-level arrays. The rest of "
               "the property (no argument modified, no live view kept by detectors that copy explicitly, injectors) is "
               "decided by the bounded tier: the caller overwrites every object right after passing it (C / Fortran order, "
               "views, DataFrames) and the outputs are compared with a run on private copies. Claimed as exploration.")
